@@ -60,3 +60,23 @@ def check_c15(tier, replay=None):
                 'with the imported runtime module: classes, bases, constructor parameter names, field attributes, is_/get_/constructor '
                 'helpers, void-tag attributes, validators, alias bindings, route objects; every annotation compared with the Pep484 '
                 'mapping computed by the specification; every name used in an annotation must be bound in the stub')
+
+
+def check_c16(tier, replay=None):
+    rep = Report('C16', tier)
+    res = run_shards('StoneLoadMC',
+                     lambda s: dict(spec='Spec', constants={'Shard': s, 'NShards': 16, 'EmitVectors': True},
+                                    invariants=INVS, constraints=['Emit']),
+                     list(range(16)), 'jscheck.JsJudge', {}, tlc_kwargs={'timeout': 6000})
+    agg = merge(res)
+    rep.add_tlc('StoneLoadMC', agg, {'models': 109})
+    rep.add_judged(agg)
+    rep.exhaustive = True
+    rep.coverage_extra['rule'] = ('for each of 108 API models (no import ring): js_client with 2 option sets parsed by node --check and evaluated '
+                                  'under node with a recording request(): one function per route version, URL, argument or null, attribute '
+                                  'values; js_types JSDoc typedefs and tsd_types declarations (single file, file per namespace, '
+                                  '--export-namespaces) scanned: every struct, union (and alias for tsd) exactly once, every field and tag at '
+                                  'its mapped type, optionality, no undeclared name; tsd_client: one method per route version with mapped types')
+    rep.assumptions = ['TLC 1.8; node v20 for JavaScript parsing/evaluation; regex scanners for JSDoc and .d.ts (no tsc in this sandbox); '
+                       'naming conversions reimplemented in harness/jscheck.py']
+    return rep.finish()
